@@ -89,6 +89,64 @@ def gen_breuse(rng):
                 data=data, classes=[rng.choice([-1, 1]) for _ in range(M)] if lab else None)
 
 
+def gen_breplace(rng):
+    """old grid and new grid differ in ONE stripe coordinate: an inner point q is replaced by another point p with the same
+    two neighbours (what a rebalancing rotation of the refinement tree does); plus possibly a few added points"""
+    dim = 2
+    L = 6
+    n = 2 ** L
+    while True:
+        k = [rng.choice([14, 15, 16, 18, 20]) for _ in range(dim)]
+        idx1 = [sorted(set([0, n] + [2 * v for v in rng.sample(range(1, n // 2), k[d])])) for d in range(dim)]
+        N1 = 1
+        for ix in idx1:
+            N1 *= len(ix) - 2
+        if 200 <= N1 <= 420:
+            break
+    idx2 = [list(ix) for ix in idx1]
+    d = rng.randrange(dim)
+    j = rng.randrange(1, len(idx2[d]) - 1)
+    q = idx2[d][j]
+    cand = [v for v in range(idx2[d][j - 1] + 1, idx2[d][j + 1]) if v != q]
+    idx2[d][j] = rng.choice(cand)
+    if rng.random() < 0.5:
+        e = 1 - d
+        idx2[e] = sorted(set(idx2[e] + rng.sample(range(1, n), rng.choice([1, 2]))))
+    M = rng.choice([10, 25, 40])
+    # samples concentrated around the replaced point so that its right-hand-side entry is non-trivial
+    c0 = q / n
+    data = []
+    for _ in range(M):
+        x = [rng.randrange(0, 129) / 128 for _ in range(dim)]
+        if rng.random() < 0.6:
+            x[d] = min(1.0, max(0.0, c0 + rng.randrange(-6, 7) / 128))
+        data.append(x)
+    lab = rng.random() < 0.3
+    return dict(kind='b-reuse', variant='replaced-point', dim=dim,
+                grids=[[[i / n for i in ix] for ix in idx] for idx in (idx1, idx2)],
+                levels=[[[_lev(i, n, L) for i in ix] for ix in idx] for idx in (idx1, idx2)],
+                data=data, classes=[rng.choice([-1, 1]) for _ in range(M)] if lab else None)
+
+
+def gen_adaptive_rebalance(rng):
+    """skewed data, rebalancing on, refined until component grids exceed the threshold over several refinement steps"""
+    dim = 2
+    M = rng.choice([40, 60, 80])
+    skew = rng.choice([2, 3])
+    data = []
+    for _ in range(M):
+        u = rng.randrange(0, 65) / 64
+        x0 = round((u ** skew) * 256) / 256
+        if rng.random() < 0.5:
+            x0 = 1.0 - x0 if rng.random() < 0.3 else x0
+        data.append([x0, rng.randrange(0, 65) / 64])
+    # make sure both coordinates span [0,1] (no rescaling by initialize())
+    data[0] = [0.0, 0.0]; data[1] = [1.0, 1.0]
+    return dict(kind='adaptive', variant='rebalance', dim=dim, data=data, classes=None, estimator='volume',
+                lam=rng.choice([0.02, 0.0625, 0.01]), lmax=5, max_evaluations=rng.choice([900, 1200, 1500]),
+                rebalancing=True, tol=0.0, points=[[rng.randrange(0, 65) / 64 for _ in range(dim)] for _ in range(8)])
+
+
 def gen_adaptive(rng, quick, big=False):
     dim = rng.choice([1, 2, 2]) if not big else 2
     M = rng.choice([20, 40, 60])
@@ -278,6 +336,15 @@ def _explained_by_dropped_samples(case, r, spec_b, step):
     return True
 
 
+def _domains(stripes):
+    """inner grid point -> its hat support (lower/upper neighbour per dimension)"""
+    per = [[(s[i], (s[i - 1], s[i + 1])) for i in range(1, len(s) - 1)] for s in stripes]
+    out = {}
+    for combo in itertools.product(*per):
+        out[tuple(p for p, _ in combo)] = tuple(d for _, d in combo)
+    return out
+
+
 def process(chk, cases, verbose=False):
     nv0 = len(chk.violations)
     impl = run_impl(impl_case, cases, limit=900)
@@ -371,11 +438,13 @@ def process(chk, cases, verbose=False):
                     expl = _explained_by_dropped_samples(c, r, None, step)
                     nbad = sum(1 for a, b in zip(on, off) if not _de.close(a, b, REL, 0, 1e-15))
                     chk.violation('oracle:reuse_on_equals_off', 'rhs-reuse-differs',
-                                  dict(path=k, step=step, explained_by_dropped_last_sorted_sample=expl), c,
+                                  dict(path=k, step=step, explained_by_dropped_last_sorted_sample=expl,
+                                       variant=c.get('variant', 'nested')), c,
                                   dict(step=step, entries_differing=nbad,
                                        max_abs_diff=float(max(abs(a - b) for a, b in zip(on, off)))))
                     ok = False
                     break
+            chk.count('b-reuse-' + c.get('variant', 'nested'))
             keys.append((k, str(c['grids']), str(c['data'])))
         elif k == 'adaptive':
             on, off = r['on'], r['off']
@@ -387,6 +456,24 @@ def process(chk, cases, verbose=False):
                                   dict(path=k, on=on.get('exc', 'ok'), off=off.get('exc', 'ok')), c, dict(on=on, off=off))
                 continue
             chk.count('adaptive-maxN>=200' if on['maxN'] >= _de.THRESHOLD else 'adaptive-maxN<200')
+            # the situation a rebalancing rotation creates for the right-hand-side reuse: a grid with >= 200 points contains a
+            # point that an earlier grid does not have, but whose hat support equals that of a point of the earlier grid
+            # (inner point replaced by another one between the same neighbours)
+            big_solves, repl = 0, 0
+            doms = []
+            for lvk, st_, al_ in on['log']:
+                dm = _domains(st_)
+                if len(al_) >= _de.THRESHOLD:
+                    big_solves += 1
+                    if any(any(pt not in od and dom in od.values() for pt, dom in dm.items()) for od in doms):
+                        repl += 1
+                doms.append(dm)
+            if big_solves:
+                chk.count('adaptive-runs-with-solves>=200')
+                chk.count('adaptive-solves>=200', big_solves)
+            if repl:
+                chk.count('adaptive-runs-with-replaced-point-on->=200-grid')
+                chk.count('adaptive-solves>=200-with-replaced-point', repl)
             why = None
             # the sequence of component-grid solves, in call order, up to the first point where the histories separate
             diverged = None
@@ -444,8 +531,10 @@ def process(chk, cases, verbose=False):
             print('case', i, k, 'ok' if ok else 'DIFFERS')
     chk.record_cases(len(cases), keys,
                      'histories of 2-4 dimension-wise grids (d 1..3, N<=48) with one matrix-entry cache; pairs of nested grids with '
-                     '200..450 points for the right-hand-side reuse; complete SpatiallyAdaptiveSingleDimensions2 density-estimation runs '
-                     '(d 1..2, lmax 2..5, <=200 evaluations; thorough also lmax 4 with grids beyond the threshold) with reuse on and off; '
+                     '200..450 points for the right-hand-side reuse (nested, and with one inner point replaced by another point between '
+                     'the same neighbours as after a rebalancing rotation); complete SpatiallyAdaptiveSingleDimensions2 density-estimation runs '
+                     '(d 1..2, lmax 2..5, <=200 evaluations; plus runs on skewed data with rebalancing on, lmax 5, 900..1500 evaluations, whose '
+                     'component grids exceed the threshold over several steps - runs in which such a grid contains a replaced point are counted in the histogram) with reuse on and off; '
                      'uniform and non-uniform grids with 60..300 points on both sides of the 200-point threshold; data on dyadic lattices; '
                      'non-trivial = history of >=2 grids with >=3 points / adaptive run with >=4 component-grid evaluations / any b-reuse or '
                      'threshold case; distinct by full case', samples)
@@ -459,6 +548,8 @@ def run(chk):
     cases = list(CORPUS)
     cases += [gen_history(rng, q) for _ in range(chk.n(60, 800))]
     cases += [gen_breuse(rng) for _ in range(chk.n(8, 80))]
+    cases += [gen_breplace(rng) for _ in range(chk.n(10, 100))]
+    cases += [gen_adaptive_rebalance(rng) for _ in range(chk.n(6, 30))]
     cases += [gen_adaptive(rng, q) for _ in range(chk.n(24, 300))]
     if not q:
         cases += [gen_adaptive(rng, q, big=True) for _ in range(12)]
